@@ -1,7 +1,10 @@
 /* C13/C14 [K3]: one-value document through the public API (doc.set(v); is<T>(); as<T>()) with v symbolic */
 /* struct Obs members in the generated header: f0 ok, f1 overflowed, f2..f11 is<i8,u8,i16,u16,i32,u32,i64,u64,f32,f64>, f12 is_bool, f13 is_str, f14 is_null, f15 n_free, f16 calls, f17..f26 as<i8,u8,i16,u16,i32,u32,i64,u64,f32,f64> */
 #include "vh.h"
-#include "doc.h"
+#ifndef UNIT_H
+#define UNIT_H "doc.h"
+#endif
+#include UNIT_H
 typedef __int128 i128;
 static void chk_int(struct S_Obs* o, i128 v, int is_signed_store) {
   VASSERT((o->f0 & 1) && !(o->f1 & 1), "set succeeds");
